@@ -1,10 +1,6 @@
 /* C09.lex.* : the real src/lexer.c (annotated scratch copy: loop-contract clauses and ghost
  * assignments only) under the contracts of contracts/lexer_contracts.h. */
 #include "lexer_contracts.h"
-#ifdef LEX_DEBUG_NOCOVER
-#undef VERIF_COVER
-#define VERIF_COVER(c) ((void)0)
-#endif
 struct lex_ghost __verif_lx;
 const void *__verif_tok;
 size_t __verif_len, __verif_S; /* never assigned by code under proof; made arbitrary in h_tokenize */
@@ -12,7 +8,10 @@ size_t __verif_len, __verif_S; /* never assigned by code under proof; made arbit
 #include "src/lexer.c"       /* annotated scratch copy when a sidecar is given (include_repo = ["", "src"]) */
 
 #ifdef VERIF_WITNESS
-/* witness mode: concrete buffer built from named inputs */
+/* witness mode: concrete buffer built from named inputs (replay/replayers_lex.py reads in_len, in_src.b[k]) */
+#ifndef LEX_WIT_MAX
+#define LEX_WIT_MAX 6
+#endif
 struct { char b[LEX_WIT_MAX + 1]; } in_src;
 size_t in_len;
 #endif
@@ -21,6 +20,9 @@ void h_tokenize(void)
 {
     lex_ctype_init();
     __verif_len = nondet_size(); __verif_S = nondet_size();
+#ifdef LEX_S_CONST
+    __CPROVER_assume(__verif_S >= LEX_S_CONST);
+#endif
     __CPROVER_assume(__verif_len <= LEX_MAX_LEN);          /* same bound as the precondition: keeps len+1 from wrapping */
 #ifdef VERIF_WITNESS
     in_len = nondet_size();
@@ -36,6 +38,11 @@ void h_tokenize(void)
     buf[__verif_len] = 0;
     int cnt;
     Token *r = tokenize(buf, &cnt);
+#ifdef VERIF_WITNESS
+    /* no DFCC in witness mode: the postcondition of the contract as plain assertions */
+    __CPROVER_assert(r == NULL || (cnt >= 1 && (size_t)cnt <= __verif_len + 1), "WITNESS token count within 1..len+1");
+    __CPROVER_assert(r == NULL || cnt < 1 || (r[cnt - 1].token_type == TOKEN_EOF && r[cnt - 1].value == NULL), "WITNESS last token is EOF");
+#endif
     /* one cover point per obligation (each extra one costs a further solver pass of ~40 s) */
 #ifdef LEX_COVER_NULL
     VERIF_COVER(r == NULL);
@@ -44,21 +51,13 @@ void h_tokenize(void)
 #endif
 }
 
-/* the seven classes of the case split cover every byte */
+/* the five classes of the case split cover every byte */
 void h_cases(void)
 {
     lex_ctype_init();
     char c = (char)nondet_u8();
-    __CPROVER_assert(LEX_P0(c) || LEX_P1(c) || LEX_P2(c) || LEX_P3(c) || LEX_P4(c) || LEX_P5(c) || LEX_P6(c),
+    __CPROVER_assert(LEX_P0(c) || LEX_P1(c) || LEX_P2(c) || LEX_P3(c) || LEX_P4(c),
                      "C09.lex case split is exhaustive");
-    VERIF_COVER(LEX_P6(c));
-    VERIF_COVER(LEX_P4(c) && (unsigned char)c >= 0x80);
-}
-
-void h_keyword(void)
-{
-    const char *str;
-    TokenType t = keyword_or_identifier(str);
-    VERIF_COVER(t == TOKEN_IDENTIFIER);
-    VERIF_COVER(t == TOKEN_FN);
+    VERIF_COVER(LEX_P4(c));
+    VERIF_COVER(LEX_P3(c) && (unsigned char)c >= 0x80);
 }
